@@ -430,6 +430,19 @@ func Extras() []*Term {
 		mk("Join2", mk("ut.NCLeaf", nil), mk("ut.NCLeaf", nil)).FillDefault(),
 		mk("Handled", mk("CombineErrors", mk("ut.NCLeaf", nil), mk("ut.NCLeaf", nil))).FillDefault(),
 	)
+	// every annotation below a multi-cause node that is hidden behind a
+	// barrier / attached as a secondary error (depth 4: beyond the full
+	// spaces of the quick tier)
+	for _, w := range Wrappers {
+		if w.Class != "annotation" || w.NSide > 0 || w.ExtraOnly {
+			continue
+		}
+		ts = append(ts,
+			mk("Handled", mk("Join2", mk(w.Name, mk("GoNew", nil)), mk("GoNew", nil))).FillDefault(),
+			mk("WithSecondaryError", mk("GoNew", nil), mk("Join2", mk(w.Name, mk("New", nil)), mk("GoNew", nil))).FillDefault(),
+			mk("Wrap", mk("GoJoin2", mk("Handled", mk(w.Name, mk("GoNew", nil))), mk("GoNew", nil))).FillDefault(),
+		)
+	}
 	// a mark whose reference is itself marked with a foreign error
 	ts = append(ts,
 		mk("Mark", mk("GoNew", nil), mk("Mark", mk("New", nil), mk("GoNew", nil))).FillDefault(),
